@@ -500,6 +500,9 @@ for name, inst, tier in [
     ("mutvec_dyn_unallocated_down1", "same, down", "quick"),
     ("mutvecrev_dyn_unallocated_up1", "MutBumpVecRev, same, up", "thorough"),
     ("mutvecrev_dyn_unallocated_down1", "MutBumpVecRev, same, down", "thorough"),
+    ("mutvecrev_dyn_bump_unallocated_up1", "MutBumpVecRev over `&mut dyn MutBumpAllocatorCoreScope` whose concrete type is `&mut Bump` (not BumpScope), unallocated arena, up", "quick"),
+    ("mutvecrev_dyn_bump_unallocated_down1", "same, down", "thorough"),
+    ("mutvec_dyn_bump_unallocated_down1", "MutBumpVec, concrete type `&mut Bump`, down", "thorough"),
     ("mutvec_map_in_place_up1", "MutBumpVec<[u8;3]> (2 elements) after a symbolic filler <= 5 B, map_in_place -> [u8;2], into_slice, up", "thorough"),
     ("mutvec_map_in_place_down1", "same, down (KNOWN FINDING: up to size_of::<U>() - 1 bytes wasted)", "quick"),
 ]:
